@@ -37,6 +37,7 @@ type Engine struct {
 	repoRoot      string
 	modPath       string
 	anyLoopSeen   bool
+	abandoned     int
 	knownWritten  map[string]bool
 	nonNilGlobal  map[*ssa.Global]bool
 	usedLemmas    map[string]bool
@@ -329,6 +330,16 @@ func (e *Engine) verifyFunc1(c *Contract) (res *FuncResult) {
 		e.knownWritten = written
 		if !grown || !e.anyLoopSeen {
 			res.Obligs = vc.obligs
+			if c.PostsOnly {
+				var keep []*Obligation
+				for _, o := range vc.obligs {
+					if o.Cover || strings.HasPrefix(o.Kind, "post:") || strings.HasPrefix(o.Kind, "loop") || strings.HasPrefix(o.Kind, "cases") || strings.Contains(o.Kind, "safety:panic") {
+						keep = append(keep, o)
+					}
+				}
+				res.Obligs = keep
+				vc.note("posts_only: safety obligations and callee preconditions of this function are not claimed here")
+			}
 			for k := range vc.usedExt {
 				res.ExtUsed = append(res.ExtUsed, k)
 			}
@@ -365,6 +376,7 @@ func (e *Engine) genFunc(c *Contract, fn *ssa.Function, mode Mode, known map[str
 	e.entryState = nil
 	e.topMods = nil
 	e.anyLoopSeen = false
+	e.abandoned = 0
 	defer func() {
 		if r := recover(); r != nil {
 			switch v := r.(type) {
